@@ -1,6 +1,5 @@
 """C15 - interpolation: range checks, smoothing polynomial table, SLERP definition (DESIGN.md 3/C15).
-Decides necessary structural clauses only; end-point equalities of CUBIC / CNSMOOTH and equivariance
-are numerical and not decided."""
+End points are decided as identities of group terms (R-END); equivariance and interior values are not decided."""
 import sympy as sp
 
 from . import astq as A
@@ -147,9 +146,52 @@ def phi_table(rep, F):
     return n
 
 
+METHODS = (("interpolate_slerp", ["A", "B", "t"], [None]),
+           ("interpolate_cubic", ["A", "B", "t", "ta", "tb"], [None]),
+           ("interpolate_smooth", ["A", "B", "t", "m", "ta", "tb"], [1, 2, 3, 4]))
+
+
+def end_points(rep, F, G):
+    """R-END: the group term of each method, with t := 0 / 1 (and each supported degree), reduces to A / B in the
+    free group under the laws of engine/endpoint.py - for arbitrary end velocities ta, tb."""
+    from fractions import Fraction
+    from . import endpoint as EP
+    n = 0
+    for name, atoms, degrees in METHODS:
+        f = next((g for g in F.functions if g["kind"] == "inst" and g["short"] == name and g.get("targs") and str(g["targs"][0]) == G and g["targs"][1] == "double"), None)
+        if f is None:
+            continue       # reported by the anchor check of run()
+        pn = [p["name"] for p in f["params"] if "opt" not in p and "optother" not in p]
+        if len(pn) != len(atoms):
+            rep.broke("R-END: %s has %d value parameters, %d expected" % (name, len(pn), len(atoms)))
+            continue
+        try:
+            ret, outs, eff = C04.evaluate(F, f, None, atoms)
+            term = EP.parse(ret)
+        except (TE.Unsupported, TE.Raised, EP.Unknown) as e:
+            rep.broke("R-END cannot build the term of %s<%s>: %s" % (name, G, e))
+            continue
+        for m in degrees:
+            for tv, want in ((0, "A"), (1, "B")):
+                sc = {"t": Fraction(tv)}
+                if m is not None:
+                    sc["m"] = Fraction(m)
+                site = "%s<%s>(t=%d%s)" % (name, G, tv, "" if m is None else ",m=%d" % m)
+                try:
+                    w = EP.Eval(sc, ["A", "B"], ["ta", "tb"]).group(term)
+                except EP.Unknown as e:
+                    rep.broke("R-END cannot evaluate %s: %s" % (site, e))
+                    continue
+                n += 1
+                rep.obligation(w == [(want, 1)], lambda w=w, site=site, want=want, tv=tv: C.Finding(
+                    "C15", "R-END", site, "at t = %d the interpolant reduces to  %s  instead of %s (group axioms, exp(0) = e, exp(-v) = exp(v)^-1, exp(log W) = W; arbitrary end velocities)" % (tv, EP.show(w), want),
+                    f["file"], f["line"]))
+    return n
+
+
 def run(args):
     rep = C.Report("C15", "other", "must-pass-through range checks, exact polynomial table of smoothing_phi, SLERP term (R-FWD)")
-    n_fn = n_phi = 0
+    n_fn = n_phi = n_end = 0
     for v in FX.variants():
         F = FX.get(v)
         gs = [g for g in C04.owning(F, "manif::LieGroupBase") if C04._is_variant_group(g, v)]
@@ -164,6 +206,7 @@ def run(args):
                 continue
             n_fn += 1
             range_mpt(rep, F, f)
+        n_end += end_points(rep, F, G)
         # dispatcher: every enumerator has a case that returns one of the three; default raises
         f = next((g for g in F.functions if g["kind"] == "inst" and g["short"] == "interpolate" and g.get("targs") and str(g["targs"][0]) == G), None)
         enum = next((e for e in F.enums if e["name"] == "manif::INTERP_METHOD"), None)
@@ -198,15 +241,17 @@ def run(args):
     n_phi = phi_table(rep, FX.get(FX.variants()[0]))
     rep.floor("interpolation_functions", n_fn, 24)
     rep.floor("phi_degrees", n_phi, 4)
+    rep.floor("end_point_identities", n_end, 8 * 12)
     rep.rules = [
         "R-MPT.range: in interpolate_slerp / _cubic / _smooth a check that raises when t is outside [0,1] precedes every other use of t (scalar copies of t are aliases)",
         "R-MPT.dispatch: interpolate() has one returning case per INTERP_METHOD enumerator, forwarding to the matching routine, and raises on any other value",
         "R-TABLE.phi (exact, sympy over Q): for each supported degree phi(0)=0, phi(1)=1, phi monotone on [0,1], first `degree` derivatives vanish at both ends; degrees outside 1..4 raise",
         "R-FWD.slerp: interpolate_slerp(A,B,t) normalises to A*exp(t*log(A^-1*B))",
+        "R-END: for SLERP, CUBIC and CNSMOOTH (degrees 1..4) the group term of the routine (generic layer inlined, R-FWD), with the scalar weights evaluated exactly at t = 0 and t = 1, reduces in the free group over {A, B, exp(v)} to A resp. B using only: associativity, X X^-1 = e, exp(0) = e, exp(-v) = exp(v)^-1, exp(log W) = W, 0*v = 0, 1*v = v - for arbitrary end velocities ta, tb and every group",
     ]
     rep.units = ["%s_double_own_funcs_debug" % v for v in FX.variants()]
     rep.trusted = ["clang AST", "sympy polynomial arithmetic"]
-    rep.assumptions = ["NOT decided: interpolate(A,B,0)=A and (A,B,1)=B for CUBIC / CNSMOOTH, equivariance, geodesic law as numerical statements",
-                       "observed while reading (outside these rules): interpolate_cubic returns B at t=0 and A at t=1"]
+    rep.assumptions = ["the end-point identities are decided as identities of group terms (R-END); their floating-point residual is not",
+                       "NOT decided: equivariance and the geodesic law at interior parameters as numerical statements"]
     rep.checker_cmd = "manif-sa plugin (mode=funcs) + engine/check_c15.py"
     return rep.finish()
